@@ -332,7 +332,7 @@ Qed.
 
 (* ------------------------------------------------------------------ the writer's output is accepted *)
 Definition writable (c : jtable) : Prop :=
-  wfj c /\ (jnobs c = 0 <-> jnsamp c = 0)%nat /\ vocabulary (j_type c)
+  wfj c /\ vocabulary (j_type c)
   /\ Forall (fun s => s <> []) (j_oids c) /\ Forall (fun s => s <> []) (j_sids c)
   /\ (exists g, j_genby c = JStr g /\ g <> []) /\ (exists d, j_date c = JStr d /\ date_ok d = true).
 
@@ -408,23 +408,33 @@ Proof.
   rewrite X, Y. apply IH; [exact F'|reflexivity].
 Qed.
 
-Lemma triples_empty_dims c : wfj c -> (jnobs c = 0)%nat -> triples (j_mat c) = [].
+Lemma triples_from_rect0 m : forall i, rect 0%nat m -> triples_from i m = [].
 Proof.
-  intros (W1 & _) H. rewrite H in W1. destruct (j_mat c); [reflexivity|discriminate].
+  induction m as [|r t IH]; intros i R; [reflexivity|].
+  inversion R as [|? ? Hr R']; subst. destruct r; [|discriminate Hr].
+  cbn [triples_from row_triples app]. apply IH. exact R'.
+Qed.
+Lemma triples_rect0 m : rect 0%nat m -> triples m = [].
+Proof. apply triples_from_rect0. Qed.
+
+Lemma triples_empty_dims c : wfj c -> (jnobs c = 0 \/ jnsamp c = 0)%nat -> triples (j_mat c) = [].
+Proof.
+  intros (W1 & W2 & _) [H|H].
+  - rewrite H in W1. destruct (j_mat c); [reflexivity|discriminate].
+  - rewrite H in W2. apply triples_rect0. exact W2.
 Qed.
 
 (* C15: every document the JSON writer produces for a table with a vocabulary type (non-empty
    IDs and generated_by, a naive creation date) is reported valid *)
 Theorem writer_valid_json c tid : writable c -> validate_json (to_json_tree c tid) = true.
 Proof.
-  intros (W & Bal & Voc & Ne1 & Ne2 & (g & Hg & Gne) & (d & Hd & Dok)).
+  intros (W & Voc & Ne1 & Ne2 & (g & Hg & Gne) & (d & Hd & Dok)).
   pose proof W as (W1 & W2 & W3 & W4 & W5 & W6 & W7 & W8).
   assert (Vr : valid_rows (to_json_tree c tid) = ROk None).
   { apply (valid_axis_written 0 (K "rows") c tid (j_oids c) (j_omd c)); try assumption. reflexivity. }
   assert (Vc : valid_columns (to_json_tree c tid) = ROk None).
   { apply (valid_axis_written 1 (K "columns") c tid (j_sids c) (j_smd c)); try assumption.
-    change (jget (to_json_fields c tid) (K "columns")) with (Some (w_columns c)).
-    rewrite (w_columns_balanced c Bal). reflexivity. }
+    reflexivity. }
   assert (Vt : valid_type (to_json_tree c tid) = ROk None).
   { destruct Voc as (s & Ty & Sne & Mem). unfold valid_type, to_json_tree.
     change (py_get (JObj (to_json_fields c tid)) (K "type")) with (ROk (A := json) (j_type c)).
@@ -455,9 +465,8 @@ Proof.
       apply sparse_loop_written; [|reflexivity]. rewrite <- W1. apply triples_range. exact W2.
     - change (find (fun p => py_eq (JStr (K "int")) (JStr (fst p))) ELEMENT_TYPES) with (Some (K "int", TInt)).
       cbn [bind snd py_unpack2 py_iter fst py_sub1 numval].
-      assert (Z0 : (jnobs c = 0)%nat).
-      { apply andb_false_iff in Dim. destruct Dim as [D|D]; apply Nat.ltb_ge in D; [lia|].
-        apply Bal. lia. }
+      assert (Z0 : (jnobs c = 0 \/ jnsamp c = 0)%nat).
+      { apply andb_false_iff in Dim. destruct Dim as [D|D]; apply Nat.ltb_ge in D; lia. }
       rewrite (triples_empty_dims c W Z0). reflexivity. }
   assert (Vg : valid_generated_by (to_json_tree c tid) = ROk None).
   { unfold valid_generated_by, to_json_tree.
@@ -501,7 +510,7 @@ Proof.
   change (py_getitem (to_json_tree c tid) (K "columns")) with (ROk (A := json) (w_columns c)).
   change (py_getitem (to_json_tree c tid) (K "shape"))
     with (ROk (A := json) (JArr [JInt (Z.of_nat (jnobs c)); JInt (Z.of_nat (jnsamp c))])).
-  rewrite (w_columns_balanced c Bal). unfold w_rows, jrecords.
+  unfold w_columns, w_rows, jrecords.
   cbn [bind py_len py_index nth_error].
   rewrite !map_length, !combine_length, !md_list_length by assumption. rewrite !Nat.min_id.
   unfold py_ne_nat. cbn [numval]. fold (jnobs c). fold (jnsamp c). rewrite !Z.eqb_refl. reflexivity.
@@ -556,7 +565,7 @@ Proof.
 Qed.
 Lemma cast_md_good recs : Forall good_rec recs -> exists m, cast_md (map rec_md recs) = ROk m.
 Proof.
-  intros F. unfold cast_md. destruct (negb (existsb py_truthy (map rec_md recs))); [eexists; reflexivity|].
+  intros F. unfold cast_md. destruct (forallb holds_nothing (map rec_md recs)); [eexists; reflexivity|].
   assert (E : exists l, mapM (fun x => match x with JObj _ => ROk x | JNull => ROk (JObj []) | _ => RErr E_TABLE end)
                           (map rec_md recs) = ROk l).
   { induction recs as [|r t IH]; [eexists; reflexivity|].
@@ -1043,8 +1052,8 @@ Qed.
 (* ------------------------------------------------------------------ witnesses (non-vacuity, limits) *)
 Lemma witness_writable : writable witness_table.
 Proof.
-  destruct witness_table_ok as (W & B & _).
-  split; [exact W|]. split; [exact B|].
+  destruct witness_table_ok as (W & _).
+  split; [exact W|].
   split; [exists (K "OTU table"); split; [reflexivity|]; split; [discriminate|vm_compute; reflexivity]|].
   split; [repeat constructor; discriminate|]. split; [repeat constructor; discriminate|].
   split; [eexists; split; [reflexivity|discriminate]|].
